@@ -117,7 +117,8 @@ Proof. repeat split; vm_compute; eexists; reflexivity. Qed.
 
 (* ---- an unterminated block (Proofs/OpenBlocks.v): the tokens of any complete statements, then an @if or
    @each whose @end is missing - holding any complete statements and, nested to any depth, a further open
-   block - then the end of the input, are always rejected; with the fuel parse_tokens really allots *)
+   block - or a {{ c / {{ x = c whose closing braces are missing, then the end of the input, are always
+   rejected; with the fuel parse_tokens really allots *)
 From Coq Require Import Lia.
 From TW Require Import Pratt StmtParse OpenBlocks.
 
@@ -140,4 +141,25 @@ Proof.
   end.
   split; [reflexivity|].
   cbn [wf_ss wf_s wf_o wf]. cbn [ttype]. repeat split; try reflexivity; try discriminate.
+Qed.
+
+(* the same for a {{ }} block that is never closed, at the top level and inside an open @if *)
+Example C08_lexed_prefix_with_open_braces :
+  (exists pre o eof, lex_all (bs "x{{ 1 + 2") = Some (flats pre ++ flat_o o ++ [eof])%list /\ wf_ss pre /\ wf_o o /\ ttype eof = T_EOF) /\
+  (exists pre o eof, lex_all (bs "@if(a)y{{ z = 3") = Some (flats pre ++ flat_o o ++ [eof])%list /\ wf_ss pre /\ wf_o o /\ ttype eof = T_EOF) /\
+  (exists es, parse_source (bs "x{{ 1 + 2") = ParseErrors es) /\ (exists es, parse_source (bs "@if(a)y{{ z = 3") = ParseErrors es).
+Proof.
+  split; [|split; [|split; vm_compute; eexists; reflexivity]].
+  - destruct (lex_all (bs "x{{ 1 + 2")) as [ts|] eqn:E; [|vm_compute in E; discriminate E].
+    vm_compute in E. injection E as <-.
+    match goal with |- exists pre o eof, Some (?x :: ?lb :: ?one :: ?pl :: ?two :: ?eoft :: nil) = _ /\ _ =>
+      exists [TText x], (OCode lb (CBin pl (CAtom one) (CAtom two))), eoft end.
+    split; [reflexivity|]. cbn [wf_ss wf_s wf_o wf llev rlev]. unfold tprec, INF. cbn [ttype].
+    repeat split; try reflexivity; try discriminate; try (vm_compute; lia).
+  - destruct (lex_all (bs "@if(a)y{{ z = 3")) as [ts|] eqn:E; [|vm_compute in E; discriminate E].
+    vm_compute in E. injection E as <-.
+    match goal with |- exists pre o eof, Some (?kw :: ?lp :: ?a :: ?rp :: ?y :: ?lb :: ?z :: ?eq :: ?three :: ?eoft :: nil) = _ /\ _ =>
+      exists [], (OIf kw lp rp (CAtom a) [TText y] (Some (OAssign lb z eq (CAtom three)))), eoft end.
+    split; [reflexivity|]. cbn [wf_ss wf_s wf_o wf]. cbn [ttype].
+    repeat split; try reflexivity; try discriminate.
 Qed.
